@@ -25,6 +25,17 @@ CONSTRUCTS = {
     "list_comp_in_generic_call": ("TG = guppy.type_var(\"TG\", copyable=False, droppable=False)\n\n@guppy.declare\ndef idg(x: TG @owned) -> TG: ...\n\n",
                                   ["xs = idg([i + a for i in range(3)])"]),
     "tensor_in_tuple": (_TF, ["tt = ((tf, tg)(a, True), 1)"]),
+    # ... and inline in an argument of a call to an OVERLOADED function (overload resolution
+    # tries every variant and swallows their errors)
+    "list_lit_in_result_arg": ("", ["result(\"t\", [a, 2, 3][0])"]),
+    "list_lit_in_range_arg": ("", ["for ri in range(len([a, 2])):", "    pass"]),
+    "tensor_in_result_arg": (_TF, ["result(\"t\", (tf, tg)(a, True)[0])"]),
+    "list_lit_in_user_overload": ("OT = guppy.type_var(\"OT\", copyable=False, droppable=True)\n\n@guppy\ndef ovi(x: int) -> int:\n    return x\n\n"
+                                  "@guppy\ndef ovg(x: OT @owned) -> int:\n    return 1\n\n@guppy.overload(ovi, ovg)\ndef ovr(): ...\n\n",
+                                  ["ro = ovr([a, 2, 3])"]),
+    "list_comp_in_user_overload": ("OT = guppy.type_var(\"OT\", copyable=False, droppable=True)\n\n@guppy\ndef ovi(x: int) -> int:\n    return x\n\n"
+                                   "@guppy\ndef ovg(x: OT @owned) -> int:\n    return 1\n\n@guppy.overload(ovi, ovg)\ndef ovr(): ...\n\n",
+                                   ["ro = ovr([i + a for i in range(3)])"]),
     "list_arg": ("@guppy.declare\ndef la(xs: list[int]) -> None: ...\n\n", ["la([a, 1])"]),
     "tensor_syn": (_TF, ["t1, t2 = (tf, tg)(a, True)"]),
     "tensor_chk": (_TF, ["t3: tuple[int, bool] = (tf, tg)(a, True)"]),
